@@ -397,6 +397,8 @@ async fn forward_events_to_follower(
     let mut buf = [0u8; 1024];
 
     loop {
+        #[cfg(feature = "verif")]
+        crate::verif::perturb("leader-forward-to-follower").await;
         select! {
             recv = commands.recv() => match recv {
                 Some(cmd) => if let Err(e) = write_line_and_flush(LeaderSyncMessage::Mut(cmd), &mut tcp_stream, config.send_timeout, follower).await {
